@@ -34,7 +34,7 @@ def gen(rng, i, tier):
         else:
             hi = float(x[-1] + rng.uniform(0.05, 0.5) * (x[-1] - x[0]))  # beyond the end of the data
     return dict(x=tolist(x), y=tolist(y), y2=tolist(y2), e=tolist(e), grow=tolist(grow), xo=tolist(xo), c=float(abs(rng.normal()) * 3),
-                hi=hi, lorch=bool(rng.random() < 0.4), grid=gk, window=hi is not None)
+                hi=hi, lorch=bool(rng.random() < 0.4), grid=gk, window=hi is not None, omitted=bool(rng.random() < 0.3))
 
 
 def evaluate(case):
@@ -42,6 +42,8 @@ def evaluate(case):
     x, y, y2, e, grow, xo = (arr(case[k]) for k in ("x", "y", "y2", "e", "grow", "xo"))
     c, hi = case["c"], case["hi"]
     kw = {"lorch": True} if case["lorch"] else {}
+    if case.get("omitted"):
+        kw["OmittedXrangeCorrection"] = True     # an option like any other: the bounds are stated for "the options", all of them
     fails = []
     _, _, u = tr.fourier_transform(x, y, xo, xmax=hi, dy_in=e, **kw)
     u = np.asarray(u, dtype=float)
